@@ -117,9 +117,30 @@ def parse_case(args, kwargs):
     return ""
 
 
+def text_case(case):
+    from curtsies.formatstring import fmtstr as _fmtstr
+    from curtsies import fmtfuncs
+    t = case["text"]
+    base = cells(_fmtstr(t))
+    if "helper" in case:
+        named, _ = spec_parse((case["helper"],), {})
+        call = lambda: getattr(fmtfuncs, case["helper"])(t)
+    else:
+        named, _ = spec_parse(tuple(case["args"]), dict(case["kwargs"]))
+        call = lambda: _fmtstr(t, *case["args"], **case["kwargs"])
+    exp = [(c, tuple(sorted((k, v) for k, v in dict(dict(a), **named).items() if v is not False))) for c, a in base]
+    try:
+        got = cells(call())
+    except Exception as e:      # noqa: BLE001
+        got = f"raised {type(e).__name__}: {e}"
+    return "" if got == exp else f"shows {got}, expected {exp}"
+
+
 def replay(case):
     if case.get("kind") == "parse":
         d = parse_case(case["args"], case["kwargs"])
+    elif case.get("kind") == "text":
+        d = text_case(case)
     else:
         d = apply_case(case)
     return d == "", d
@@ -175,6 +196,51 @@ def bounded(check, tier, seed):
         d = apply_case(case)
         if d:
             s.fail("C14.apply", case, d, replay={"kind": "suite", "module": "props.C14", "case": case})
+    s.done()
+    # formatting applied to TEXT (not to an existing FmtStr): plain text, text carrying escape sequences that parse, and text whose
+    # escape sequences do not parse (from_str then falls back to stripping them) - every spelling must format every character
+    texts = ["", "ab", "a\nb", "\x1b[31mred\x1b[39m plain", "\x1b[1mB\x1b[0m\x1b[44mx", "\x1b[90mbright\x1b[0m", "x\x1b[22my", "\x1b[100mq\x1b[49m r",
+             "\x1b[2Jcls", "\x1b[38;5;100mp", "tab\there"]
+    specs = [((), {"fg": "red"}), (("red",), {}), ((), {"fg": 31}), (("on_blue",), {}), ((), {"bg": 44}), (("bold",), {}), ((), {"bold": True}),
+             ((), {"style": "underline"}), (("green", "on_red", "invert"), {}), ((), {"fg": "cyan", "bg": "black", "dark": True}), ((), {"bold": False})]
+    s = Suite(check, "C14.text", "fmtstr(text, spec) for 11 texts (plain, with escape sequences that parse, with sequences that do not parse: "
+              "bright colours, ESC[22m, 256-colour) x 11 specifications (positional / keyword / number / style=) and the fmtfuncs helpers: "
+              "every character of the result carries exactly the named attributes over what fmtstr(text) alone gives it", bound="11 texts x 11 specs + 23 helpers")
+    from curtsies.formatstring import fmtstr as _fmtstr
+    for t in texts:
+        try:
+            base = cells(_fmtstr(t))
+        except Exception as e:      # noqa: BLE001  (C17 decides that fmtstr accepts any text)
+            continue
+        for args, kw in specs:
+            s.case((t, args, tuple(sorted(kw.items()))), sample=dict(text=t, args=list(args), kwargs=kw))
+            named, _ = spec_parse(args, kw)
+            exp = [(c, tuple(sorted((k, v) for k, v in dict(dict(a), **named).items() if v is not False))) for c, a in base]
+            try:
+                got = cells(_fmtstr(t, *args, **kw))
+            except Exception as e:      # noqa: BLE001
+                got = f"raised {type(e).__name__}: {e}"
+            if got != exp:
+                case = dict(kind="text", text=t, args=list(args), kwargs=kw)
+                s.fail("C14.text", case, f"fmtstr({t!r}, *{args}, **{kw}) shows {got}, the named attributes on every character give {exp}",
+                       replay={"kind": "suite", "module": "props.C14", "case": case})
+        for name in fmtfuncs.__dict__:
+            fn = getattr(fmtfuncs, name)
+            if name.startswith("_") or not callable(fn) or name in ("fmtstr", "partial"):
+                continue
+            s.case((t, name))
+            try:
+                named, _ = spec_parse((name,), {})
+            except Invalid:
+                continue
+            exp = [(c, tuple(sorted((k, v) for k, v in dict(dict(a), **named).items() if v is not False))) for c, a in base]
+            try:
+                got = cells(fn(t))
+            except Exception as e:      # noqa: BLE001
+                got = f"raised {type(e).__name__}: {e}"
+            if got != exp:
+                case = dict(kind="text", text=t, helper=name)
+                s.fail("C14.text", case, f"{name}({t!r}) shows {got}, expected {exp}", replay={"kind": "suite", "module": "props.C14", "case": case})
     s.done()
 
 
